@@ -240,17 +240,17 @@ func (e *env) evalThreshold(rp replay) (T *big.Int, ec int) {
 		bits = fd.BitLen()
 	}
 	// the Coq evaluation of Newton's k-th root on a 2000-bit number with
-	// 3 <= k < 2000 costs seconds (linear convergence, as in Go): in the quick
-	// tier such inputs are left to the monitor and the certificates
+	// 3 <= k < 2000 costs seconds (linear convergence, as in Go): such
+	// inputs are left to the monitor and the certificates (thorough keeps k <= 5)
 	coqOK := bits <= e.coqMax
-	if coqOK && bits > 600 && !c.Thorough() && rp.Pool > 0 && rp.Total > 0 {
+	if coqOK && bits > 600 && rp.Pool > 0 && rp.Total > 0 {
 		p0 := rp.Pool
 		if p0 > rp.Total {
 			p0 = rp.Total
 		}
 		g := new(big.Int).GCD(nil, nil, new(big.Int).SetUint64(p0), new(big.Int).SetUint64(rp.Total))
 		m := new(big.Int).Quo(new(big.Int).SetUint64(rp.Total), g)
-		if m.Cmp(big.NewInt(2)) > 0 && m.Cmp(big.NewInt(int64(bits))) < 0 {
+		if m.Cmp(big.NewInt(int64(c.Pick(2, 5)))) > 0 && m.Cmp(big.NewInt(int64(bits))) < 0 {
 			coqOK = false
 			c.Res.Distribution["coq-skipped-slow-root"]++
 		}
@@ -737,7 +737,7 @@ func run(c *vh.Ctx) error {
 		"error classes are recognised by a substring of the error text (mode / domain / escalation cap)",
 	}
 	c.Res.Distribution = map[string]int{}
-	e := &env{c: c, maxcrt: c.Pick(36, 240), coqMax: c.Pick(2200, 20000)}
+	e := &env{c: c, maxcrt: c.Pick(36, 240), coqMax: c.Pick(2200, 2500)}
 	e.cf = c.NewCaseFile("c37", header)
 	e.cf.SetShardSize(c.Pick(30, 40))
 	if c.Replay != "" {
